@@ -179,11 +179,22 @@ impl<'w> DocsRun<'w> {
     }
 
     pub async fn step(&mut self, op: &Value) -> Option<Value> {
+        let mut ev = self.exec(op).await?;
+        let (docs, hashes) = self.observe();
+        ev["docs"] = docs;
+        ev["hashes"] = hashes;
+        let open: Vec<usize> = self.infos.keys().copied().collect();
+        ev["open"] = json!(open);
+        Some(ev)
+    }
+
+    /// Execute one op without observing (observation commits the open transaction).
+    pub async fn exec(&mut self, op: &Value) -> Option<Value> {
         let w = self.w;
         let kind = op["op"].as_str().unwrap();
         let d = op["d"].as_u64().unwrap_or(0) as usize;
         iroh_docs::verif::set_clock(op["now"].as_u64().unwrap_or(1000));
-        let mut ev = match kind {
+        let ev = match kind {
             "import" => {
                 let cap = match (op["kind"].as_str().unwrap(), self.t.secret(d)) {
                     ("write", Some(s)) => Capability::Write(s.clone()),
@@ -268,6 +279,15 @@ impl<'w> DocsRun<'w> {
                 json!({"ev":"Policy","d":d,"kind":op["kind"],"filters":op["filters"],
                        "res": match res { Ok(_) => "ok".to_string(), Err(e) => anyhow_class(&e) }})
             }
+            "flush" => {
+                let res = self.store.as_mut().unwrap().flush();
+                json!({"ev":"Flush","d":0,"res": if res.is_ok() {"ok"} else {"err"}})
+            }
+            "getmany" => {
+                // a snapshot read: commits the open write transaction as a side effect
+                let n = self.store.as_mut().unwrap().get_many(self.t.id(d), Query::all()).map(|it| it.count()).unwrap_or(0);
+                json!({"ev":"GetMany","d":d,"res":"ok","n":n})
+            }
             "remove" => {
                 let res = self.store.as_mut().unwrap().remove_replica(&self.t.id(d));
                 json!({"ev":"Remove","d":d,"res": match res { Ok(_) => "ok".to_string(), Err(e) => anyhow_class(&e) }})
@@ -301,12 +321,14 @@ impl<'w> DocsRun<'w> {
             }
             other => panic!("unknown docs op {other}"),
         };
-        let (docs, hashes) = self.observe();
-        ev["docs"] = docs;
-        ev["hashes"] = hashes;
-        let open: Vec<usize> = self.infos.keys().copied().collect();
-        ev["open"] = json!(open);
         Some(ev)
+    }
+
+    pub fn observe_pub(&mut self) -> (Value, Value) {
+        self.observe()
+    }
+    pub fn store_mut(&mut self) -> &mut Store {
+        self.store.as_mut().unwrap()
     }
 }
 
